@@ -16,7 +16,7 @@ import Vt.Props.C10b
 import Vt.Props.C13
 import Vt.Props.C02
 namespace Vt.C01
-open Vt Vt.Recv Vt.C19 Vt.C09 Vt.RowDraw Vt.GridDraw Vt.Tok
+open Vt Vt.Recv Vt.C19 Vt.C09 Vt.RowDraw Vt.GridDraw Vt.Tok Vt.C03
 set_option linter.unusedSimpArgs false
 
 variable {W : Nat → Option Nat} {cb : CbPolicy}
@@ -156,6 +156,57 @@ theorem rowsInv_withPos {srows : List Row} {cols i : Nat} {pp : Pos} {R : RS}
     RowsInv srows cols i false to { R with g := withPos R.g to } :=
   ⟨canvas_withPos h.canvas to, h.hcols, h.nrows, rfl, h.row, fun hh => by simp at hh⟩
 
+/-- line `k` replaced, cursor moved -/
+def replaced (R : RS) (k : Nat) (Rk' : Row) (to : Pos) : RS :=
+  { R with g := { R.g with rows := R.g.rows.set k Rk', pos := to } }
+
+/-- replacing a drawn line by one that looks the same, and moving the cursor -/
+theorem rowsInv_replace {srows : List Row} {cols : Nat} {pp : Pos} {R : RS}
+    (h : RowsInv srows cols srows.length false pp R) (k : Nat) (Rk Rk' : Row) (hk : R.g.rows[k]? = some Rk)
+    (hv : Rk'.cells.map view = Rk.cells.map view) (hw : Rk'.wrapped = Rk.wrapped)
+    (h22 : ∀ c ∈ Rk'.cells, c.contents.length = 22) (to : Pos) :
+    RowsInv srows cols srows.length false to (replaced R k Rk' to) := by
+  unfold replaced
+  have hkl := getElem?_lt hk
+  have hc := h.canvas
+  refine ⟨⟨hc.rows_pos, hc.cols_pos, hc.rows_u16, hc.cols_u16, hc.top, hc.bottom, hc.origin,
+    by simp [hc.alloc], ?_⟩, h.hcols, h.nrows, rfl, ?_, fun hh => by simp at hh⟩
+  · intro r hr
+    simp only at hr ⊢
+    rcases List.mem_or_eq_of_mem_set hr with hr | rfl
+    · exact hc.width r hr
+    · have := congrArg List.length hv
+      simp only [List.length_map] at this
+      rw [this]; exact hc.width Rk (List.mem_of_getElem? hk)
+  · intro j hj
+    simp only [List.getElem?_set]
+    by_cases hjk : k = j
+    · subst hjk
+      obtain ⟨Rj, hRj, hd, hb⟩ := h.row k hj
+      rw [hk] at hRj
+      have : Rk = Rj := Option.some.inj hRj
+      subst this
+      simp only [hkl, ↓reduceIte]
+      refine ⟨Rk', rfl, fun hlt => ?_, fun hge => by omega⟩
+      obtain ⟨d1, _, d3⟩ := hd hlt
+      exact ⟨hv.trans d1, h22, hw.trans d3⟩
+    · rw [if_neg hjk]
+      exact h.row j hj
+
+/-- the receiver's cell looks like the source's: it is plain / wide exactly as the source cell is -/
+theorem flags_of_view {a b : Cell} (h : view a = view b) : a.wide = b.wide ∧ a.cont = b.cont := by
+  simp only [view, View.mk.injEq] at h
+  exact ⟨h.2.1, h.2.2.1⟩
+
+theorem views_get {l1 l2 : List Cell} (h : l1.map view = l2.map view) (k : Nat) (hk : k < l2.length) :
+    ∃ hk1 : k < l1.length, view l1[k] = view l2[k] := by
+  have hl : l1.length = l2.length := by simpa using congrArg List.length h
+  refine ⟨by omega, ?_⟩
+  have := congrArg (fun l => l[k]?) h
+  simp only [List.getElem?_map, List.getElem?_eq_getElem hk, List.getElem?_eq_getElem (show k < l1.length by omega),
+    Option.map_some, Option.some.injEq] at this
+  exact this
+
 /-- **the grid part of a full redraw** when the source cursor is not at the pending-wrap position -/
 theorem grid_formatted_reproduces (hW : WOk W) {q : Parser} (hq : RecvOk W q) (Sg : Grid)
     (hoff : Sg.scrollbackOffset = 0) (hsz : Sg.size = (rsOf q.ws).g.size)
@@ -167,7 +218,7 @@ theorem grid_formatted_reproduces (hW : WOk W) {q : Parser} (hq : RecvOk W q) (S
         Rf.g.scrollbackOffset = (rsOf q.ws).g.scrollbackOffset := by
   obtain ⟨R1, hem1, hpen1, hinv1, hoff1, _⟩ := prefix_drawn (cb := cb) hq Sg.rows (by rw [hn, hsz])
   rw [← hsz] at hinv1
-  obtain ⟨out', pp', pa', R', eloop, hem', hpen', hinv', hoff'⟩ := rows_loop hW q hq.ready hS Sg.rows 0 false ⟨0, 0⟩
+  obtain ⟨out', pp', pa', R', eloop, hem', hpen', hinv', hoff', hwf'⟩ := rows_loop hW q hq.ready hS Sg.rows 0 false ⟨0, 0⟩
     (Term.clearAttrs ++ Term.clearScreen) R1 rfl (Nat.zero_le _) (fun h => absurd h (Nat.lt_irrefl 0)) (fun _ => rfl)
     hinv1 hem1
   rw [hpen1] at eloop
@@ -186,6 +237,230 @@ theorem grid_formatted_reproduces (hW : WOk W) {q : Parser} (hq : RecvOk W q) (S
   refine ⟨out' ++ Term.moveFromTo pp' Sg.pos, pa', ?_, { R' with g := withPos R'.g Sg.pos }, hem2, hpen',
     rowsInv_withPos hinv' Sg.pos, hoff'.trans hoff1⟩
   simp only [Grid.writeContentsFormatted, C19.visibleRows_offset0 Sg hoff, ok_bind, eloop, hcur, pure_eq_ok]
+
+theorem map_view_set_same {l : List Cell} {k : Nat} (hk : k < l.length) {c' : Cell} (h : view c' = view l[k]) :
+    (l.set k c').map view = l.map view := by
+  rw [List.map_set]
+  apply List.ext_getElem?
+  intro j
+  by_cases hj : k = j
+  · subst hj; simp [hk, h]
+  · simp [hj]
+
+/-- **the grid part of a full redraw** when the source cursor is at the pending-wrap position of a line whose
+last column is occupied: the last character of the line is typed again to get the receiver's cursor there -/
+theorem grid_formatted_reproduces_pw (hW : WOk W) {q : Parser} (hq : RecvOk W q) (Sg : Grid)
+    (hoff : Sg.scrollbackOffset = 0) (hsz : Sg.size = (rsOf q.ws).g.size)
+    (hS : SrcRows W Sg.size.cols Sg.rows) (hn : Sg.rows.length = Sg.size.rows)
+    (hrow : Sg.pos.row < Sg.size.rows) (hcol : Sg.pos.col = Sg.size.cols)
+    (hocc : lastOcc (Sg.rows[Sg.pos.row]'(by omega)).cells) :
+    ∃ bytes pa, Sg.writeContentsFormatted = .ok (bytes, pa) ∧
+      ∃ Rf, Emitted W cb q bytes Rf ∧ Rf.pen = pa ∧
+        RowsInv Sg.rows Sg.size.cols Sg.rows.length false Sg.pos Rf ∧
+        Rf.g.scrollbackOffset = (rsOf q.ws).g.scrollbackOffset := by
+  obtain ⟨R1, hem1, hpen1, hinv1, hoff1, _⟩ := prefix_drawn (cb := cb) hq Sg.rows (by rw [hn, hsz])
+  rw [← hsz] at hinv1
+  obtain ⟨out', pp', pa', R', eloop, hem', hpen', hinv', hoff', hwf'⟩ := rows_loop hW q hq.ready hS Sg.rows 0 false ⟨0, 0⟩
+    (Term.clearAttrs ++ Term.clearScreen) R1 rfl (Nat.zero_le _) (fun h => absurd h (Nat.lt_irrefl 0)) (fun _ => rfl)
+    hinv1 hem1
+  rw [hpen1] at eloop
+  have hpawf : Attrs.wf pa' := hwf' (by rw [hpen1]; exact wf_default)
+  have hvis := C19.visibleRows_offset0 Sg hoff
+  by_cases hpp : pp' = Sg.pos
+  · -- the loop already left the cursor there
+    have hcur : Sg.writeCursorPositionFormatted (some pp') (some pa') = .ok [] := by
+      simp [Grid.writeCursorPositionFormatted, hpp, Grid.moveOpt, C19.moveFromTo_self]
+    refine ⟨out' ++ [], pa', ?_, R', by simpa using hem', hpen', ?_, hoff'.trans hoff1⟩
+    · simp only [Grid.writeContentsFormatted, hvis, ok_bind, eloop, hcur, pure_eq_ok]
+    · rw [← hpp]; exact hinv'
+  · -- re-type the last character of the cursor line
+    have hcv := hinv'.canvas
+    have hcols1 := hcv.cols_pos
+    have hu := hcv.cols_u16
+    have hru := hcv.rows_u16
+    have hsc1 : 1 ≤ Sg.size.cols := by rw [← hinv'.hcols]; exact hcols1
+    have hrl : Sg.pos.row < Sg.rows.length := by omega
+    have hsok := hS.ok _ (List.getElem_mem hrl)
+    have hswd := hS.width _ (List.getElem_mem hrl)
+    obtain ⟨hlen1, hoc⟩ := hocc
+    obtain ⟨Rk, hRk, hdone, _⟩ := hinv'.row Sg.pos.row hrl
+    obtain ⟨hvk, h22k, hwk⟩ := hdone hrl
+    have hRkl : Rk.cells.length = Sg.size.cols := by
+      have := congrArg List.length hvk; simp only [List.length_map] at this; rw [this, hswd]
+    have hc1 : Sg.size.cols - 1 < Sg.rows[Sg.pos.row].cells.length := by rw [hswd]; omega
+    have hlastidx : Sg.rows[Sg.pos.row].cells.length - 1 = Sg.size.cols - 1 := by rw [hswd]
+    simp only [hlastidx] at hoc
+    have hcond : (some pp' != some Sg.pos && decide (Sg.pos.col ≥ Sg.size.cols)) = true := by
+      have : ¬ pp' = Sg.pos := hpp
+      simp [this, hcol]
+    have hdraw : ∀ site k (hk : k < Sg.rows[Sg.pos.row].cells.length),
+        Sg.drawingCellM site ⟨Sg.pos.row, k⟩ = .ok Sg.rows[Sg.pos.row].cells[k] := by
+      intro site k hk
+      simp [Grid.drawingCellM, Grid.drawingCell, Grid.drawingRow, Row.get, List.getElem?_eq_getElem hrl,
+        List.getElem?_eq_getElem hk]
+    have hrr : Sg.pos.row < R'.g.size.rows := by rw [hinv'.nrows]; exact hrl
+    by_cases hlc : Sg.rows[Sg.pos.row].cells[Sg.size.cols - 1].cont = true
+    · -- a wide character in the last two columns
+      obtain ⟨j0, pv, hj0, hpv, hpvw⟩ := paired_cont_prev (List.getElem?_eq_getElem hc1) hsok.paired hlc
+      have hc2 : Sg.size.cols - 2 < Sg.rows[Sg.pos.row].cells.length := by omega
+      have hcols2 : 2 ≤ Sg.size.cols := by omega
+      have hj0' : j0 = Sg.size.cols - 2 := by omega
+      subst hj0'
+      have hpv' : Sg.rows[Sg.pos.row].cells[Sg.size.cols - 2] = pv := by
+        rw [List.getElem?_eq_getElem hc2] at hpv; exact Option.some.inj hpv
+      have hwide : Sg.rows[Sg.pos.row].cells[Sg.size.cols - 2].wide = true := by rw [hpv']; exact hpvw
+      have hh : Sg.rows[Sg.pos.row].cells[Sg.size.cols - 2].hasContents = true :=
+        wide_has_contents (hsok.cells_ok _ (List.getElem_mem hc2)) hwide
+      have hncont : Sg.rows[Sg.pos.row].cells[Sg.size.cols - 2].cont = false :=
+        wide_not_cont (hsok.cells_ok _ (List.getElem_mem hc2)) hwide
+      obtain ⟨f, zs, ht⟩ := textCell_of hW (hsok.cells_ok _ (List.getElem_mem hc2)) (hsok.emit_ok _ hc2) hh
+      have hfine : CellFine Sg.rows[Sg.pos.row].cells[Sg.size.cols - 2] := cellFine_of_ok (hsok.cells_ok _ (List.getElem_mem hc2))
+      have hw2 : 2 ≤ (W f).getD 1 := by
+        have := ht.wide; rw [hwide] at this
+        have h' : 1 < (W f).getD 1 := by simpa using this.symm
+        omega
+      have hcur : Sg.writeCursorPositionFormatted (some pp') (some pa') =
+          .ok (Term.moveFromTo pp' ⟨Sg.pos.row, Sg.size.cols - 2⟩ ++
+            Sg.rows[Sg.pos.row].cells[Sg.size.cols - 2].attrs.writeEscapeCodeDiff pa' ++
+            Sg.rows[Sg.pos.row].cells[Sg.size.cols - 2].contents.take Sg.rows[Sg.pos.row].cells[Sg.size.cols - 2].len ++
+            pa'.writeEscapeCodeDiff Sg.rows[Sg.pos.row].cells[Sg.size.cols - 2].attrs) := by
+        simp only [Grid.writeCursorPositionFormatted, hcond, ↓reduceIte, Option.getD_some, Grid.endOfRowPos,
+          subM_ok hsc1, ok_bind, hdraw 412 _ hc1, Cell.isWideContinuation, hlc, subM_ok hcols2, pure_bind',
+          hdraw 415 _ hc2, hh, contentsBytes_ok hfine, Grid.moveOpt, pure_eq_ok]
+      obtain ⟨hk2, hvc2⟩ := views_get hvk (Sg.size.cols - 2) hc2
+      obtain ⟨hk1, hvc1⟩ := views_get hvk (Sg.size.cols - 1) hc1
+      obtain ⟨hfw, hfc⟩ := flags_of_view hvc2
+      have hgo := goto_eq hcv pp' ⟨Sg.pos.row, Sg.size.cols - 2⟩ hinv'.pos hrr (by simp only; rw [hinv'.hcols]; omega)
+      have hemA := emitted_step W cb hq.ready hem' (step_moveFromTo W cb pp' ⟨Sg.pos.row, Sg.size.cols - 2⟩
+        (by simp only; rw [hinv'.nrows] at hru; omega) (by simp only; rw [hinv'.hcols] at hu; omega)) hgo
+      have hemB := emitted_step W cb hq.ready hemA
+        (step_pen W cb Sg.rows[Sg.pos.row].cells[Sg.size.cols - 2].attrs pa' (hsok.wf _ hc2))
+        (r' := { R' with g := withPos R'.g ⟨Sg.pos.row, Sg.size.cols - 2⟩,
+                         pen := Sg.rows[Sg.pos.row].cells[Sg.size.cols - 2].attrs }) (by simp [hpen'])
+      have hstep := step_text W cb _ ht.valid (by rw [ht.chars]; exact ht.plain) ht.noesc
+      rw [ht.chars] at hstep
+      have hidx : Sg.size.cols - 2 + 1 = Sg.size.cols - 1 := by omega
+      obtain ⟨cellF, cc, etype, vF, kF, vcc, kcc⟩ := type_cell_wide_over W (g := withPos R'.g ⟨Sg.pos.row, Sg.size.cols - 2⟩)
+        (by simp only [withPos]; exact hu) Sg.rows[Sg.pos.row].cells[Sg.size.cols - 2].attrs f _ zs Rk
+        Rk.cells[Sg.size.cols - 2] Rk.cells[Sg.size.cols - 1] rfl hw2 ht.first ht.zero
+        (by simp only [withPos]; rw [hinv'.hcols]; have := ht.fits; rw [hswd] at this; exact this)
+        (by simpa [withPos] using hRk) (by simp [withPos, List.getElem?_eq_getElem hk2]) (by rw [hfw, hwide])
+        (by rw [hfc, hncont]) (h22k _ (List.getElem_mem hk2))
+        (by simp only [withPos, hidx]; exact List.getElem?_eq_getElem hk1) (h22k _ (List.getElem_mem hk1)) hW.space ht.pre
+      simp only [withPos, hidx] at etype
+      have hemC := emitted_step W cb hq.ready hemB hstep
+        (r' := { R' with g := typed (withPos R'.g ⟨Sg.pos.row, Sg.size.cols - 2⟩) Rk
+                              ((Rk.cells.set (Sg.size.cols - 2) cellF).set (Sg.size.cols - 1) cc) (Sg.size.cols - 2 + 2),
+                         pen := Sg.rows[Sg.pos.row].cells[Sg.size.cols - 2].attrs }) (by
+          simp only [withPos, etype, ok_bind, pure_eq_ok])
+      have hemD := emitted_step W cb hq.ready hemC
+        (step_pen W cb pa' Sg.rows[Sg.pos.row].cells[Sg.size.cols - 2].attrs hpawf)
+        (r' := { R' with g := typed (withPos R'.g ⟨Sg.pos.row, Sg.size.cols - 2⟩) Rk
+                              ((Rk.cells.set (Sg.size.cols - 2) cellF).set (Sg.size.cols - 1) cc) (Sg.size.cols - 2 + 2),
+                         pen := pa' }) (by simp)
+      have hposeq : (⟨Sg.pos.row, Sg.size.cols - 2 + 2⟩ : Pos) = Sg.pos := by
+        rw [show Sg.size.cols - 2 + 2 = Sg.size.cols by omega, ← hcol]
+      have hv1 : ((Rk.cells.set (Sg.size.cols - 2) cellF).set (Sg.size.cols - 1) cc).map view = Rk.cells.map view := by
+        have h1 := map_view_set_same hk2 (c' := cellF) (by rw [vF, ← ht.view, hvc2])
+        have hk1' : Sg.size.cols - 1 < (Rk.cells.set (Sg.size.cols - 2) cellF).length := by simpa using hk1
+        have h2 := map_view_set_same hk1' (c' := cc) (by
+          rw [vcc, List.getElem_set_ne (by omega), hvc1, hsok.cont_view _ hc1 hlc]; rfl)
+        rw [h2, h1]
+      have hrepl := rowsInv_replace hinv' Sg.pos.row Rk
+        { Rk with cells := (Rk.cells.set (Sg.size.cols - 2) cellF).set (Sg.size.cols - 1) cc } hRk hv1 rfl (by
+          intro c hc
+          rcases List.mem_or_eq_of_mem_set hc with hc | rfl
+          · rcases List.mem_or_eq_of_mem_set hc with hc | rfl
+            · exact h22k c hc
+            · exact kF
+          · exact kcc) Sg.pos
+      refine ⟨out' ++ (Term.moveFromTo pp' ⟨Sg.pos.row, Sg.size.cols - 2⟩ ++
+            Sg.rows[Sg.pos.row].cells[Sg.size.cols - 2].attrs.writeEscapeCodeDiff pa' ++
+            Sg.rows[Sg.pos.row].cells[Sg.size.cols - 2].contents.take Sg.rows[Sg.pos.row].cells[Sg.size.cols - 2].len ++
+            pa'.writeEscapeCodeDiff Sg.rows[Sg.pos.row].cells[Sg.size.cols - 2].attrs), pa', ?_, _, ?_, ?_, hrepl, hoff'.trans hoff1⟩
+      · simp only [Grid.writeContentsFormatted, hvis, ok_bind, eloop, hcur, pure_eq_ok]
+      · have : replaced R' Sg.pos.row { Rk with cells := (Rk.cells.set (Sg.size.cols - 2) cellF).set (Sg.size.cols - 1) cc } Sg.pos =
+            { R' with g := typed (withPos R'.g ⟨Sg.pos.row, Sg.size.cols - 2⟩) Rk
+                              ((Rk.cells.set (Sg.size.cols - 2) cellF).set (Sg.size.cols - 1) cc) (Sg.size.cols - 2 + 2), pen := pa' } := by
+          simp only [replaced, typed, withPos, hposeq, hpen']
+        rw [this]
+        simpa [List.append_assoc] using hemD
+      · exact hpen'
+    · -- a narrow character in the last column
+      have hlc' : Sg.rows[Sg.pos.row].cells[Sg.size.cols - 1].cont = false := by simpa using hlc
+      have hh : Sg.rows[Sg.pos.row].cells[Sg.size.cols - 1].hasContents = true := by
+        rcases hoc with h | h
+        · exact h
+        · rw [hlc'] at h; simp at h
+      obtain ⟨f, zs, ht⟩ := textCell_of hW (hsok.cells_ok _ (List.getElem_mem hc1)) (hsok.emit_ok _ hc1) hh
+      have hfine : CellFine Sg.rows[Sg.pos.row].cells[Sg.size.cols - 1] := cellFine_of_ok (hsok.cells_ok _ (List.getElem_mem hc1))
+      -- the last column cannot hold a wide character
+      have hnw : Sg.rows[Sg.pos.row].cells[Sg.size.cols - 1].wide = false := by
+        by_cases hw : Sg.rows[Sg.pos.row].cells[Sg.size.cols - 1].wide = true
+        · obtain ⟨hj', _⟩ := hsok.wide_next _ hc1 hw
+          rw [hswd] at hj'; omega
+        · simpa using hw
+      have hw1 : (W f).getD 1 = 1 := by
+        have := ht.wide; rw [hnw] at this
+        have h' : ¬ 1 < (W f).getD 1 := by simpa using this.symm
+        have := ht.width; omega
+      -- the emitter's output
+      have hcur : Sg.writeCursorPositionFormatted (some pp') (some pa') =
+          .ok (Term.moveFromTo pp' ⟨Sg.pos.row, Sg.size.cols - 1⟩ ++
+            Sg.rows[Sg.pos.row].cells[Sg.size.cols - 1].attrs.writeEscapeCodeDiff pa' ++
+            Sg.rows[Sg.pos.row].cells[Sg.size.cols - 1].contents.take Sg.rows[Sg.pos.row].cells[Sg.size.cols - 1].len ++
+            pa'.writeEscapeCodeDiff Sg.rows[Sg.pos.row].cells[Sg.size.cols - 1].attrs) := by
+        simp only [Grid.writeCursorPositionFormatted, hcond, ↓reduceIte, Option.getD_some, Grid.endOfRowPos,
+          subM_ok hsc1, ok_bind, hdraw 412 _ hc1, Cell.isWideContinuation, hlc', Bool.false_eq_true, pure_bind',
+          hdraw 415 _ hc1, hh, contentsBytes_ok hfine, Grid.moveOpt, pure_eq_ok]
+      -- the receiver
+      obtain ⟨hk1, hvc⟩ := views_get hvk (Sg.size.cols - 1) hc1
+      obtain ⟨hfw, hfc⟩ := flags_of_view hvc
+      have hgo := goto_eq hcv pp' ⟨Sg.pos.row, Sg.size.cols - 1⟩ hinv'.pos hrr (by simp only; rw [hinv'.hcols]; omega)
+      have hemA := emitted_step W cb hq.ready hem' (step_moveFromTo W cb pp' ⟨Sg.pos.row, Sg.size.cols - 1⟩
+        (by simp only; rw [hinv'.nrows] at hru; omega) (by simp only; rw [hinv'.hcols] at hu; omega)) hgo
+      have hemB := emitted_step W cb hq.ready hemA
+        (step_pen W cb Sg.rows[Sg.pos.row].cells[Sg.size.cols - 1].attrs pa' (hsok.wf _ hc1))
+        (r' := { R' with g := withPos R'.g ⟨Sg.pos.row, Sg.size.cols - 1⟩,
+                         pen := Sg.rows[Sg.pos.row].cells[Sg.size.cols - 1].attrs }) (by simp [hpen'])
+      have hstep := step_text W cb _ ht.valid (by rw [ht.chars]; exact ht.plain) ht.noesc
+      rw [ht.chars] at hstep
+      obtain ⟨cellF, etype, vF, kF⟩ := type_cell_narrow W (g := withPos R'.g ⟨Sg.pos.row, Sg.size.cols - 1⟩)
+        (by simp only [withPos]; exact hu) Sg.rows[Sg.pos.row].cells[Sg.size.cols - 1].attrs f zs Rk Rk.cells[Sg.size.cols - 1]
+        hw1 ht.first ht.zero (by simp only [withPos]; rw [hinv'.hcols]; omega) (by simpa [withPos] using hRk)
+        (by simp [withPos, List.getElem?_eq_getElem hk1]) (by rw [hfw, hnw]) (by rw [hfc, hlc'])
+        (h22k _ (List.getElem_mem hk1)) ht.pre
+      have hemC := emitted_step W cb hq.ready hemB hstep
+        (r' := { R' with g := typed (withPos R'.g ⟨Sg.pos.row, Sg.size.cols - 1⟩) Rk
+                              (Rk.cells.set (Sg.size.cols - 1) cellF) (Sg.size.cols - 1 + 1),
+                         pen := Sg.rows[Sg.pos.row].cells[Sg.size.cols - 1].attrs }) (by
+          simp only [etype, ok_bind, pure_eq_ok]
+          rfl)
+      have hemD := emitted_step W cb hq.ready hemC
+        (step_pen W cb pa' Sg.rows[Sg.pos.row].cells[Sg.size.cols - 1].attrs hpawf)
+        (r' := { R' with g := typed (withPos R'.g ⟨Sg.pos.row, Sg.size.cols - 1⟩) Rk
+                              (Rk.cells.set (Sg.size.cols - 1) cellF) (Sg.size.cols - 1 + 1),
+                         pen := pa' }) (by simp)
+      have hposeq : (⟨Sg.pos.row, Sg.size.cols - 1 + 1⟩ : Pos) = Sg.pos := by
+        rw [show Sg.size.cols - 1 + 1 = Sg.size.cols by omega, ← hcol]
+      have hrepl := rowsInv_replace hinv' Sg.pos.row Rk { Rk with cells := Rk.cells.set (Sg.size.cols - 1) cellF } hRk
+        (map_view_set_same hk1 (by rw [vF, ← ht.view, hvc])) rfl (by
+          intro c hc
+          rcases List.mem_or_eq_of_mem_set hc with hc | rfl
+          · exact h22k c hc
+          · exact kF) Sg.pos
+      refine ⟨out' ++ (Term.moveFromTo pp' ⟨Sg.pos.row, Sg.size.cols - 1⟩ ++
+            Sg.rows[Sg.pos.row].cells[Sg.size.cols - 1].attrs.writeEscapeCodeDiff pa' ++
+            Sg.rows[Sg.pos.row].cells[Sg.size.cols - 1].contents.take Sg.rows[Sg.pos.row].cells[Sg.size.cols - 1].len ++
+            pa'.writeEscapeCodeDiff Sg.rows[Sg.pos.row].cells[Sg.size.cols - 1].attrs), pa', ?_, _, ?_, ?_, hrepl, hoff'.trans hoff1⟩
+      · simp only [Grid.writeContentsFormatted, hvis, ok_bind, eloop, hcur, pure_eq_ok]
+      · have : replaced R' Sg.pos.row { Rk with cells := Rk.cells.set (Sg.size.cols - 1) cellF } Sg.pos =
+            { R' with g := typed (withPos R'.g ⟨Sg.pos.row, Sg.size.cols - 1⟩) Rk
+                              (Rk.cells.set (Sg.size.cols - 1) cellF) (Sg.size.cols - 1 + 1), pen := pa' } := by
+          simp only [replaced, typed, withPos, hposeq, hpen']
+        rw [this]
+        simpa [List.append_assoc] using hemD
+      · exact hpen'
 
 /-- the receiver shows the source: what `obs` compares, component by component (input modes apart) -/
 structure Shows (q : Screen) (S : Screen) : Prop where
@@ -257,7 +532,8 @@ structure SrcScreen (W : Nat → Option Nat) (S : Screen) : Prop where
   rows : SrcRows W S.cur.size.cols S.cur.rows
   alloc : S.cur.rows.length = S.cur.size.rows
   cur_row : S.cur.pos.row < S.cur.size.rows
-  cursor_inside : S.cur.pos.col < S.cur.size.cols
+  cursor_ok : S.cur.pos.col < S.cur.size.cols ∨
+    (S.cur.pos.col = S.cur.size.cols ∧ lastOcc (S.cur.rows[S.cur.pos.row]'(by rw [alloc]; exact cur_row)).cells)
   pen_wf : Attrs.wf S.attrs
 
 theorem rsOf_hide (ws : WS) (b : Bool) :
@@ -278,8 +554,15 @@ theorem contents_formatted_reproduces (hW : WOk W) {q : Parser} (hq : RecvOk W q
   have hrs1 : rsOf q1.ws = rsOf q.ws := by rw [w1]; exact rsOf_hide _ _
   have hq1 : RecvOk W q1 := ⟨r1, by rw [hrs1]; exact hq.canvas, by rw [hrs1]; exact hq.rows_ok⟩
   -- the grid
-  obtain ⟨gb, pa, eg, Rf, hemf, hpenf, hinvf, hofff⟩ := grid_formatted_reproduces (cb := cb) hW hq1 S.cur hS.off
-    (by rw [hrs1]; exact hsz) hS.rows hS.alloc hS.cur_row hS.cursor_inside
+  obtain ⟨gb, pa, eg, Rf, hemf, hpenf, hinvf, hofff⟩ : ∃ bytes pa, S.cur.writeContentsFormatted = .ok (bytes, pa) ∧
+      ∃ Rf, Emitted W cb q1 bytes Rf ∧ Rf.pen = pa ∧
+        RowsInv S.cur.rows S.cur.size.cols S.cur.rows.length false S.cur.pos Rf ∧
+        Rf.g.scrollbackOffset = (rsOf q1.ws).g.scrollbackOffset := by
+    rcases hS.cursor_ok with hin | ⟨hpw, hocc⟩
+    · exact grid_formatted_reproduces (cb := cb) hW hq1 S.cur hS.off (by rw [hrs1]; exact hsz) hS.rows hS.alloc
+        hS.cur_row hin
+    · exact grid_formatted_reproduces_pw (cb := cb) hW hq1 S.cur hS.off (by rw [hrs1]; exact hsz) hS.rows hS.alloc
+        hS.cur_row hpw hocc
   -- the pen
   have hem2 := emitted_step W cb r1 hemf (step_pen W cb S.attrs pa hS.pen_wf)
     (r' := { Rf with pen := S.attrs }) (by simp [hpenf])
@@ -432,7 +715,9 @@ theorem srcRows_of {g : Grid} {un : Bool} (hg : GridInv W g un) (hpl : gridPlusO
 /-- **every screen that satisfies the Boolean invariants, is not scrolled back and whose cursor is inside
 its line is a valid source** -/
 theorem srcScreen_of_inv {S : Screen} (hinv : emitInvB W S = true) (hoff : S.cur.scrollbackOffset = 0)
-    (hcur : S.cur.pos.col < S.cur.size.cols) : SrcScreen W S := by
+    (hcur : S.cur.pos.col < S.cur.size.cols ∨
+      (S.cur.pos.col = S.cur.size.cols ∧ ∀ h : S.cur.pos.row < S.cur.rows.length, lastOcc (S.cur.rows[S.cur.pos.row]).cells)) :
+    SrcScreen W S := by
   simp only [emitInvB, invPlusB, Bool.and_eq_true] at hinv
   obtain ⟨⟨⟨⟨⟨hI, hp1⟩, hp2⟩, he1⟩, he2⟩, ha⟩ := hinv
   have hsi := (inv_iff W S).mp hI
@@ -442,14 +727,19 @@ theorem srcScreen_of_inv {S : Screen} (hinv : emitInvB W S = true) (hoff : S.cur
     cases hs : S.altScreen
     · simpa using srcRows_of hsi.grid hp1 he1
     · simpa using srcRows_of hsi.alt hp2 he2
-  exact ⟨hoff, hrows, hal, hcg.pos_row, hcur, attrs_wf_of_ok ha⟩
+  refine ⟨hoff, hrows, hal, hcg.pos_row, ?_, attrs_wf_of_ok ha⟩
+  rcases hcur with h | ⟨h1, h2⟩
+  · exact Or.inl h
+  · exact Or.inr ⟨h1, h2 (by rw [hal]; exact hcg.pos_row)⟩
 
-/-- **C01** (cursor inside its line): for every screen `S` satisfying `Inv`, `Inv⁺`, `emitInv`, not scrolled back,
+/-- **C01** (cursor inside its line, or pending wrap after a line whose last column is occupied): for every screen `S` satisfying `Inv`, `Inv⁺`, `emitInv`, not scrolled back,
 feeding the bytes of `S.state_formatted()` to a NEW parser of the same size (any scrollback capacity) yields a
 screen whose observable state equals `S`'s — cells, wide/continuation flags, colours and attributes, wrap
 flags, cursor, cursor visibility, pen, input modes — and reports no event -/
 theorem full_redraw_fresh (hW : WOk W) (S : Screen) (hinv : emitInvB W S = true) (hoff : S.cur.scrollbackOffset = 0)
-    (hcur : S.cur.pos.col < S.cur.size.cols) (sb : Nat) :
+    (hcur : S.cur.pos.col < S.cur.size.cols ∨
+      (S.cur.pos.col = S.cur.size.cols ∧ ∀ h : S.cur.pos.row < S.cur.rows.length, lastOcc (S.cur.rows[S.cur.pos.row]).cells))
+    (sb : Nat) :
     ∃ q bytes q', Parser.new S.cur.size.rows S.cur.size.cols sb = .ok q ∧ S.stateFormatted = .ok bytes ∧
       q.process W cb bytes = .ok q' ∧ obs q'.screen = obs S ∧ q'.ws.events = [] := by
   have hS := srcScreen_of_inv hinv hoff hcur
